@@ -526,7 +526,7 @@ func (g *gen) genesis() M {
 	}
 	s := M{"owner": g.pick(accts), "pending": "none", "attMgr": g.pick(accts), "pauser": g.pick(accts), "tokCtl": g.pick(accts),
 		"attesters": atts, "threshold": 1 + g.r.Intn(nk+1-b2i(nk > 0)), "pausedBM": g.p(0.1), "pausedSR": g.p(0.1),
-		"maxBody": []int{132, 200, 8000}[g.r.Intn(3)], "nextNonce": []int{0, 0, 1, 2, 3, 4, 3497}[g.r.Intn(7)], "used": []any{}, "pairs": []any{}, "msgrs": []any{},
+		"maxBody": []int{132, 200, 8000, 132, 200, 8000, 0}[g.r.Intn(7)], "nextNonce": []int{0, 0, 1, 2, 3, 4, 3497}[g.r.Intn(7)], "used": []any{}, "pairs": []any{}, "msgrs": []any{},
 		"limits": []any{}, "bal": bal, "supply": supply}
 	if g.p(0.3) {
 		s["pending"] = g.pick(accts)
